@@ -24,7 +24,7 @@ from .common import (Sim, SimStore, run_once, violation, finish, compare_results
 ID = "C08"
 LEVEL = "exploration"
 HAS_CLOCK = False
-COUNTS = {"quick": 800, "thorough": 120000}
+COUNTS = {"quick": 1200, "thorough": 120000}
 WALL = {"quick": 600, "thorough": 6 * 3600}
 SHRINK_WALL = {"quick": 120, "thorough": 900}
 SELFTEST_N = {"quick": 24, "thorough": 128}
